@@ -3,11 +3,13 @@ package c03
 import (
 	"encoding/json"
 	"fmt"
+	"sort"
 	"strings"
 
 	"hv/drive"
 	"hv/fw"
 	"hv/mutate"
+	"hv/util"
 )
 
 // DevReport runs the cases whose id contains filter in-process and renders every failure
@@ -137,4 +139,37 @@ func DevGen(tier string, seed uint64, id string) string {
 		fmt.Fprintf(&sb, "errors=%d panic=%v\n%s\n", out.Errors, pv, strings.ReplaceAll(out.ErrorSummary(), "; ", "\n"))
 	}
 	return sb.String()
+}
+
+// DevCorpus reports which shipped programs the analyzer accepts.
+func DevCorpus() string {
+	var sb strings.Builder
+	corpus := util.Corpus()
+	names := make([]string, 0, len(corpus))
+	for k := range corpus {
+		names = append(names, k)
+	}
+	sort.Strings(names)
+	for _, n := range names {
+		src := drive.Sources{}
+		for k, v := range corpusSources(corpus, n) {
+			src[k] = v
+		}
+		out, pv := analyze(src, true)
+		_, first := firstError(out)
+		fmt.Fprintf(&sb, "%-50s errors=%d panic=%v %s\n", n, out.Errors, pv, first)
+	}
+	return sb.String()
+}
+
+// DevWitness renders the known_findings.txt witness object of a case id (kind, payload, tags).
+func DevWitness(id string) string {
+	for _, c := range (c03{}).Cases("quick", 1) {
+		if c.ID == id {
+			w := map[string]any{"kind": c.Kind, "payload": c.Payload, "tags": c.Tags}
+			b, _ := json.Marshal(w)
+			return string(b) + "\n"
+		}
+	}
+	return "no such case\n"
 }
